@@ -45,15 +45,31 @@ pub fn server_config(name: &str) -> Arc<ServerConfig> {
     if let Some(v) = c.get(name) {
         return v.clone();
     }
-    let (cert, key) = fixture(name);
+    // "<fixture>+foreignkey": somebody who has a copy of the certificate but not its private key - the
+    // handshake is signed with another key (the self-signed fixture's)
+    let (cert_name, foreign) = match name.strip_suffix("+foreignkey") {
+        Some(n) => (n, true),
+        None => (name, false),
+    };
+    let (cert, key) = fixture(cert_name);
     let certs: Vec<CertificateDer<'static>> = rustls_pemfile::certs(&mut cert.as_bytes()).collect::<Result<_, _>>().expect("fixture cert");
-    let key: PrivateKeyDer<'static> = rustls_pemfile::private_key(&mut key.as_bytes()).expect("fixture key").expect("fixture key present");
-    let cfg = ServerConfig::builder_with_provider(Arc::new(rustls::crypto::aws_lc_rs::default_provider()))
-        .with_safe_default_protocol_versions()
-        .expect("protocol versions")
-        .with_no_client_auth()
-        .with_single_cert(certs, key)
-        .expect("server config");
+    let key_pem = if foreign { fixture("selfsigned").1 } else { key };
+    let key: PrivateKeyDer<'static> = rustls_pemfile::private_key(&mut key_pem.as_bytes()).expect("fixture key").expect("fixture key present");
+    let provider = Arc::new(rustls::crypto::aws_lc_rs::default_provider());
+    let builder = ServerConfig::builder_with_provider(provider.clone()).with_safe_default_protocol_versions().expect("protocol versions").with_no_client_auth();
+    let cfg = if foreign {
+        #[derive(Debug)]
+        struct Fixed(Arc<rustls::sign::CertifiedKey>);
+        impl rustls::server::ResolvesServerCert for Fixed {
+            fn resolve(&self, _hello: rustls::server::ClientHello<'_>) -> Option<Arc<rustls::sign::CertifiedKey>> {
+                Some(self.0.clone())
+            }
+        }
+        let signing = provider.key_provider.load_private_key(key).expect("foreign key");
+        builder.with_cert_resolver(Arc::new(Fixed(Arc::new(rustls::sign::CertifiedKey::new(certs, signing)))))
+    } else {
+        builder.with_single_cert(certs, key).expect("server config")
+    };
     let cfg = Arc::new(cfg);
     c.insert(name.to_string(), cfg.clone());
     cfg
